@@ -7,11 +7,13 @@ import (
 	"go/types"
 	"sort"
 	"strings"
+
+	"golang.org/x/tools/go/packages"
 )
 
 func init() {
 	register(&Rule{ID: "R-import-visibility", Floor: 14, Run: ruleImportVisibility,
-		Doc: "module rules of C15. Analyzer import resolution (the Analyzer method that calls HostProvider.ResolveCodeModule): (1) on every path, an entity looked up in the *imported* module (type, function, variable: the kinds that carry a pub attribute) is recorded in the importing module only after a test of that attribute whose failing side reports an error; (2) every scope entry the import code creates (NewVar / newTypeWrapper in importItem and its dummy-field helper) is created with the pub flag being the constant false — an imported name that is itself pub could be imported again from the importing module, so visibility would leak through modules that never declared the item pub; (3) every loop iteration over the requested items either records a resolved entity or reports a diagnostic, every return through the dummy-field helper is preceded by a report, and a positive cycle test reports. Compiler: (4) the entry module's @init calls the @init of every module: each emitted Call_Imm in compileProgram takes its target from a range over the collection that receives one init function per module of the program; the only skipped entry is the entry module itself; (5) function lookup by name is keyed by module: no lookup returns the first match of a search across all modules."})
+		Doc: "module rules of C15. Analyzer import resolution (the Analyzer method that calls HostProvider.ResolveCodeModule): (1) on every path, an entity looked up in the *imported* module (type, function, variable: the kinds that carry a pub attribute) is recorded in the importing module only after a test of that attribute whose failing side reports an error; (2) every scope entry the import code creates (NewVar / newTypeWrapper in importItem and its dummy-field helper) is created with the pub flag being the constant false — an imported name that is itself pub could be imported again from the importing module, so visibility would leak through modules that never declared the item pub; (3) every loop iteration over the requested items either records a resolved entity or reports a diagnostic, every return through the dummy-field helper is preceded by a report, and a positive cycle test reports. Compiler: (4) the entry module's @init calls the @init of every module: each emitted Call_Imm in compileProgram takes its target from a range over the collection that receives one init function per module of the program; the only skipped entry is the entry module itself; (5) function lookup by name is keyed by module: no lookup returns the first match of a search across all modules. Anchors are roles, not names: the error reporter is any function that unconditionally records a diagnostic of level DiagnosticLevelError (also through a level-parametric helper) or appends to the syntax-error list; a recorder is a Module method invoked on the importing module with the entity as argument; the entity kind follows from its record type; the pub flag of a constructor is the parameter that becomes IsPub; a pub test may be written inline, cached in a local or delegated to a one-line predicate; the walk covers the import method and the resolver helpers it is split into (helpers that receive the imported *Module or consult the host); the cycle test is the callee that walks Module.ImportsModules; the @init table and its emission loop are followed into a helper that receives the table; the init name is matched by the value of InitFunctionIdent."})
 }
 
 func ruleImportVisibility(c *Ctx) []Obligation {
@@ -64,29 +66,37 @@ func actxImportAnalyzer(c *Ctx) []Obligation {
 		return []Obligation{{Key: "homescript/analyzer|import resolution", Status: Undecided, Detail: "no Analyzer method calls HostProvider.ResolveCodeModule"}}
 	}
 	fname := "homescript/analyzer." + FuncName(imp)
-	// helper(s) called from it that also create scope entries (importDummyFields)
+	// helper(s) reached from it (two levels) that also create scope entries (importDummyFields, split-off resolvers)
 	helpers := []*ast.FuncDecl{imp}
-	ast.Inspect(imp.Body, func(n ast.Node) bool {
-		if ce, ok := n.(*ast.CallExpr); ok {
-			if f := CalleeOf(info, ce); f != nil && f.Pkg() == p.Types {
-				if fd := FuncDecl(p, "Analyzer", f.Name()); fd != nil && fd != imp && len(actxCallsNamed(fd.Body, info, "NewVar")) > 0 {
-					dup := false
-					for _, h := range helpers {
-						if h == fd {
-							dup = true
+	for level, frontier := 0, []*ast.FuncDecl{imp}; level < 2 && len(frontier) > 0; level++ {
+		var next []*ast.FuncDecl
+		for _, cur := range frontier {
+			ast.Inspect(cur.Body, func(n ast.Node) bool {
+				if ce, ok := n.(*ast.CallExpr); ok {
+					if f := CalleeOf(info, ce); f != nil && f.Pkg() == p.Types {
+						if fd := actxDeclOfFunc(p, f); fd != nil && fd.Recv != nil && recvTypeName(fd.Recv.List[0].Type) == "Analyzer" && len(actxCallsNamed(fd.Body, info, "NewVar")) > 0 {
+							dup := false
+							for _, h := range helpers {
+								if h == fd {
+									dup = true
+								}
+							}
+							if !dup {
+								helpers = append(helpers, fd)
+								next = append(next, fd)
+							}
 						}
 					}
-					if !dup {
-						helpers = append(helpers, fd)
-					}
 				}
-			}
+				return true
+			})
 		}
-		return true
-	})
+		frontier = next
+	}
 
 	// (2) constant-false pub flag ------------------------------------------------
 	nctor := 0
+	pubParam := map[*types.Func]int{}
 	for _, h := range helpers {
 		seen := map[string]int{}
 		ast.Inspect(h.Body, func(n ast.Node) bool {
@@ -98,12 +108,10 @@ func actxImportAnalyzer(c *Ctx) []Obligation {
 			if f == nil {
 				return true
 			}
-			sig := f.Type().(*types.Signature)
-			idx := -1
-			for i := 0; i < sig.Params().Len(); i++ {
-				if strings.EqualFold(sig.Params().At(i).Name(), "isPub") {
-					idx = i
-				}
+			idx, known := pubParam[f]
+			if !known {
+				idx = actxPubParam(p, f)
+				pubParam[f] = idx
 			}
 			if idx < 0 || idx >= len(ce.Args) {
 				return true
@@ -132,59 +140,25 @@ func actxImportAnalyzer(c *Ctx) []Obligation {
 	}
 
 	// (1)+(3) path walk -----------------------------------------------------------
-	// the imported-module variable: a local of type *Module
-	isModuleVar := func(e ast.Expr) bool {
-		for {
-			switch x := ast.Unparen(e).(type) {
-			case *ast.SelectorExpr:
-				e = x.X
-				continue
-			case *ast.IndexExpr:
-				e = x.X
-				continue
-			case *ast.CallExpr:
-				if sel, ok := x.Fun.(*ast.SelectorExpr); ok {
-					e = sel.X
-					continue
-				}
-				return false
-			case *ast.Ident:
-				obj := info.Uses[x]
-				if obj == nil {
-					return false
-				}
-				if _, isRecv := obj.(*types.Var); !isRecv {
-					return false
-				}
-				pt, ok := obj.Type().(*types.Pointer)
-				if !ok {
-					return false
-				}
-				n, ok := pt.Elem().(*types.Named)
-				return ok && n.Obj().Name() == "Module" && n.Obj().Pkg() == p.Types && x.Name != "self"
-			}
-			return false
-		}
+	// The walk covers the import method and the helpers it delegates the resolution to (split
+	// functions): Analyzer methods called from it that receive the imported module (*Module) or
+	// consult the host. Helpers that create scope entries without doing either only register
+	// placeholder names: returning through them abandons the import.
+	type finding struct {
+		key, detail string
+		pos         token.Pos
 	}
-	pubAttr := func(t types.Type) string { // which attribute of the entity carries visibility
-		if pt, ok := t.(*types.Pointer); ok {
-			t = pt.Elem()
-		}
-		st, ok := t.Underlying().(*types.Struct)
-		if !ok {
-			return ""
-		}
-		for i := 0; i < st.NumFields(); i++ {
-			if st.Field(i).Name() == "IsPub" {
-				return "IsPub"
-			}
-		}
-		for i := 0; i < st.NumFields(); i++ {
-			if st.Field(i).Name() == "Modifier" {
-				return "Modifier"
-			}
-		}
-		return ""
+	var bad []finding
+	okKinds := map[string]int{}
+	nret := 0
+	pathsIncomplete := false
+	reporters := actxErrReporters(p)
+	if len(reporters) == 0 {
+		return append(out, Obligation{Key: fname + "|error reporter", Status: Undecided, Detail: "no function of the analyzer records a diagnostic of level DiagnosticLevelError"})
+	}
+	isReport := func(ce *ast.CallExpr) bool {
+		f := CalleeOf(info, ce)
+		return f != nil && reporters[f]
 	}
 	reports := func(n ast.Node) bool {
 		r := false
@@ -192,253 +166,353 @@ func actxImportAnalyzer(c *Ctx) []Obligation {
 			return false
 		}
 		ast.Inspect(n, func(x ast.Node) bool {
-			if ce, ok := x.(*ast.CallExpr); ok {
-				if sel, ok := ce.Fun.(*ast.SelectorExpr); ok && sel.Sel.Name == "error" {
-					r = true
-				}
+			if ce, ok := x.(*ast.CallExpr); ok && isReport(ce) {
+				r = true
 			}
-			if as, ok := x.(*ast.AssignStmt); ok && len(as.Lhs) == 1 && strings.HasSuffix(exprStr(as.Lhs[0]), "syntaxErrors") {
+			if as, ok := x.(*ast.AssignStmt); ok && len(as.Lhs) == 1 && actxIsSyntaxErrSink(info, as.Lhs[0]) {
 				r = true
 			}
 			return true
 		})
 		return r
 	}
-	// if statements testing a pub attribute: cond atom → (entity ident, failing side reports)
-	type pubTest struct {
-		obj  types.Object
-		okOn bool // value of the atom on the side that is allowed to continue silently
-		errs bool
-	}
-	tests := map[ast.Expr]pubTest{}
-	ast.Inspect(imp.Body, func(n ast.Node) bool {
-		ifs, ok := n.(*ast.IfStmt)
-		if !ok {
-			return true
-		}
-		cond := ast.Unparen(ifs.Cond)
-		neg := false
-		atom := cond
-		if u, ok := cond.(*ast.UnaryExpr); ok && u.Op == token.NOT {
-			neg = true
-			atom = ast.Unparen(u.X)
-		}
-		var ent *ast.Ident
-		pubWhen := true // atom true ⇒ is pub
-		switch x := atom.(type) {
-		case *ast.SelectorExpr:
-			if x.Sel.Name == "IsPub" {
-				ent, _ = ast.Unparen(x.X).(*ast.Ident)
-			}
-		case *ast.BinaryExpr:
-			if sel, ok := ast.Unparen(x.X).(*ast.SelectorExpr); ok && sel.Sel.Name == "Modifier" {
-				if k := ConstOf(info, x.Y); k != nil && strings.Contains(k.Name(), "PUB") {
-					ent, _ = ast.Unparen(sel.X).(*ast.Ident)
-					pubWhen = x.Op == token.EQL
+	isResolver := func(fd *ast.FuncDecl) bool {
+		for _, f := range fd.Type.Params.List {
+			if pt, ok := info.TypeOf(f.Type).(*types.Pointer); ok {
+				if n, ok := pt.Elem().(*types.Named); ok && n.Obj().Name() == "Module" && n.Obj().Pkg() == p.Types {
+					return true
 				}
 			}
-		case *ast.Ident:
-			// a local that caches the attribute: isPub := fn.Modifier == PUB
-			if obj := info.Uses[x]; obj != nil {
-				ast.Inspect(imp.Body, func(m ast.Node) bool {
-					if as, ok := m.(*ast.AssignStmt); ok && len(as.Lhs) == 1 && len(as.Rhs) == 1 {
-						if id, ok := as.Lhs[0].(*ast.Ident); ok && (info.Defs[id] == obj || info.Uses[id] == obj) {
-							switch r := ast.Unparen(as.Rhs[0]).(type) {
-							case *ast.SelectorExpr:
-								if r.Sel.Name == "IsPub" {
-									ent, _ = ast.Unparen(r.X).(*ast.Ident)
-								}
-							case *ast.BinaryExpr:
-								if sel, ok := ast.Unparen(r.X).(*ast.SelectorExpr); ok && sel.Sel.Name == "Modifier" {
-									if k := ConstOf(info, r.Y); k != nil && strings.Contains(k.Name(), "PUB") {
-										ent, _ = ast.Unparen(sel.X).(*ast.Ident)
-										pubWhen = r.Op == token.EQL
-									}
-								}
+		}
+		hostCall := false
+		ast.Inspect(fd.Body, func(n ast.Node) bool {
+			if ce, ok := n.(*ast.CallExpr); ok {
+				if sel, ok := ce.Fun.(*ast.SelectorExpr); ok {
+					if s := info.Selections[sel]; s != nil && s.Kind() == types.MethodVal && types.IsInterface(s.Recv()) {
+						if _, isField := ast.Unparen(sel.X).(*ast.SelectorExpr); isField {
+							hostCall = true
+						}
+					}
+				}
+			}
+			return true
+		})
+		return hostCall
+	}
+	walked := []*ast.FuncDecl{imp}
+	var abandon []*ast.FuncDecl
+	for _, h := range helpers[1:] {
+		if isResolver(h) {
+			walked = append(walked, h)
+		} else {
+			abandon = append(abandon, h)
+		}
+	}
+	// resolvers reached through another resolver (one more level)
+	for _, wfd := range append([]*ast.FuncDecl(nil), walked...) {
+		ast.Inspect(wfd.Body, func(n ast.Node) bool {
+			if ce, ok := n.(*ast.CallExpr); ok {
+				if f := CalleeOf(info, ce); f != nil && f.Pkg() == p.Types {
+					if fd := actxDeclOfFunc(p, f); fd != nil && fd.Recv != nil && recvTypeName(fd.Recv.List[0].Type) == "Analyzer" {
+						known := false
+						for _, x := range append(append([]*ast.FuncDecl(nil), walked...), abandon...) {
+							if x == fd {
+								known = true
 							}
 						}
-					}
-					return true
-				})
-			}
-		}
-		if ent == nil {
-			return true
-		}
-		_ = neg
-		// the non-pub side: atom == !pubWhen. Which statement list runs then?
-		var failing ast.Node
-		atomValForBody := !neg // body runs when cond true ⇔ atom == !neg
-		if atomValForBody == !pubWhen {
-			failing = ifs.Body
-		} else if ifs.Else != nil {
-			failing = ifs.Else
-		}
-		tests[atom] = pubTest{obj: info.Uses[ent], okOn: pubWhen, errs: failing != nil && reports(failing)}
-		return true
-	})
-
-	type finding struct {
-		key, detail string
-		pos         token.Pos
-	}
-	var bad []finding
-	okKinds := map[string]int{}
-	recorders := map[string]bool{"addVar": true, "addType": true, "addTemplate": true, "addTrigger": true}
-	var handle func(st *actxImpState, n ast.Node)
-	handle = func(st *actxImpState, n ast.Node) {
-		if n == nil {
-			return
-		}
-		ast.Inspect(n, func(x ast.Node) bool {
-			ce, ok := x.(*ast.CallExpr)
-			if !ok {
-				return true
-			}
-			if sel, ok := ce.Fun.(*ast.SelectorExpr); ok && sel.Sel.Name == "error" {
-				st.reported = true
-			}
-			f := CalleeOf(info, ce)
-			if f == nil || !recorders[f.Name()] {
-				return true
-			}
-			// which entity feeds the recorded value?
-			var used []types.Object
-			for _, a := range ce.Args {
-				ast.Inspect(a, func(y ast.Node) bool {
-					if id, ok := y.(*ast.Ident); ok {
-						if _, isEnt := st.ent[info.Uses[id]]; isEnt {
-							used = append(used, info.Uses[id])
+						if !known && isResolver(fd) && len(actxCallsNamed(fd.Body, info, "NewVar")) > 0 {
+							walked = append(walked, fd)
 						}
 					}
-					return true
-				})
-			}
-			for _, e := range used {
-				kind := st.ent[e]
-				if pubAttr(e.Type()) == "" {
-					st.resolved = true
-					continue // templates / triggers carry no visibility attribute
-				}
-				st.resolved = true
-				if st.tested[e] {
-					okKinds[kind]++
-				} else {
-					bad = append(bad, finding{key: kind + " is recorded without a pub test", pos: ce.Pos(),
-						detail: fmt.Sprintf("%s(…) at %s records the %s `%s` taken from the imported module, but no test of its pub attribute with an error on the failing side precedes it on the path [%s]", f.Name(), c.Pos(ce.Pos()), kind, e.Name(), strings.Join(st.dec, ", "))})
 				}
 			}
 			return true
 		})
 	}
-	w := &Walker[*actxImpState]{Clone: actxImpClone}
-	w.IsPanic = func(s ast.Stmt) bool { return IsPanicCall(info, s) }
-	w.OnRange = func(st *actxImpState, r *ast.RangeStmt) (*actxImpState, bool) {
-		st.reported, st.resolved = false, false
-		return st, true
-	}
-	w.OnCond = func(st *actxImpState, cond ast.Expr, taken bool) (*actxImpState, bool) {
-		handle(st, cond)
-		if t, ok := tests[cond]; ok {
-			if taken == t.okOn || t.errs {
-				// either the entity is pub, or the failing side reports
-				st.tested[t.obj] = true
+	walkOne := func(cur *ast.FuncDecl) {
+		var recvObj types.Object
+		if cur.Recv != nil && len(cur.Recv.List) > 0 && len(cur.Recv.List[0].Names) > 0 {
+			recvObj = info.Defs[cur.Recv.List[0].Names[0]]
+		}
+		// rootedAtRecv: the expression is reached from the receiver of the import method (self.currentModule …)
+		rootedAtRecv := func(e ast.Expr) bool {
+			for {
+				switch x := ast.Unparen(e).(type) {
+				case *ast.SelectorExpr:
+					e = x.X
+				case *ast.IndexExpr:
+					e = x.X
+				case *ast.StarExpr:
+					e = x.X
+				case *ast.Ident:
+					return recvObj != nil && info.Uses[x] == recvObj
+				default:
+					return false
+				}
 			}
 		}
-		st.dec = append(st.dec, fmt.Sprintf("%s=%v", exprStr(cond), taken))
-		if len(st.dec) > 10 {
-			st.dec = st.dec[len(st.dec)-10:]
+		// a recorder: a method of the module record invoked on the importing module (reached from the receiver)
+		isRecorder := func(ce *ast.CallExpr) bool {
+			sel, ok := ce.Fun.(*ast.SelectorExpr)
+			if !ok {
+				return false
+			}
+			f := CalleeOf(info, ce)
+			if f == nil || f.Pkg() != p.Types {
+				return false
+			}
+			sig := f.Type().(*types.Signature)
+			if sig.Recv() == nil {
+				return false
+			}
+			rt := sig.Recv().Type()
+			if pt, ok := rt.(*types.Pointer); ok {
+				rt = pt.Elem()
+			}
+			n, ok := rt.(*types.Named)
+			return ok && n.Obj().Name() == "Module" && rootedAtRecv(sel.X)
 		}
-		return st, true
-	}
-	w.OnCase = func(st *actxImpState, sw *ast.SwitchStmt, vals, others []ast.Expr) (*actxImpState, bool) {
-		return st, true
-	}
-	w.OnStmt = func(st *actxImpState, s ast.Stmt) (*actxImpState, bool) {
-		if as, ok := s.(*ast.AssignStmt); ok && len(as.Rhs) == 1 && syntaxErrAppend(as) {
-			st.reported = true
-		}
-		if as, ok := s.(*ast.AssignStmt); ok && len(as.Rhs) == 1 && isModuleVar(as.Rhs[0]) {
-			// entity lookup in the imported module
-			if id, ok := as.Lhs[0].(*ast.Ident); ok {
-				obj := info.Defs[id]
-				if obj == nil {
-					obj = info.Uses[id]
-				}
-				if obj != nil {
-					kind := "entity"
-					rs := exprStr(as.Rhs[0])
-					switch {
-					case strings.Contains(rs, "getType"):
-						kind = "type"
-					case strings.Contains(rs, "getFunc"):
-						kind = "function"
-					case strings.Contains(rs, "getTemplate"):
-						kind = "template"
-					case strings.Contains(rs, "getTrigger"):
-						kind = "trigger"
-					case strings.Contains(rs, "Values"):
-						kind = "variable"
+		// the imported-module variable: a local of type *Module
+		isModuleVar := func(e ast.Expr) bool {
+			for {
+				switch x := ast.Unparen(e).(type) {
+				case *ast.SelectorExpr:
+					e = x.X
+					continue
+				case *ast.IndexExpr:
+					e = x.X
+					continue
+				case *ast.CallExpr:
+					if sel, ok := x.Fun.(*ast.SelectorExpr); ok {
+						e = sel.X
+						continue
 					}
-					st.ent[obj] = kind
-					delete(st.tested, obj)
+					return false
+				case *ast.Ident:
+					obj := info.Uses[x]
+					if obj == nil {
+						return false
+					}
+					if _, isRecv := obj.(*types.Var); !isRecv {
+						return false
+					}
+					pt, ok := obj.Type().(*types.Pointer)
+					if !ok {
+						return false
+					}
+					n, ok := pt.Elem().(*types.Named)
+					return ok && n.Obj().Name() == "Module" && n.Obj().Pkg() == p.Types && obj != recvObj
 				}
+				return false
 			}
 		}
-		// entity supplied by the host (builtin module): x, …, … := self.host.<Get…>(…)
-		if as, ok := s.(*ast.AssignStmt); ok && len(as.Rhs) == 1 {
-			if ce, ok := as.Rhs[0].(*ast.CallExpr); ok {
-				if sel, ok := ce.Fun.(*ast.SelectorExpr); ok && strings.HasSuffix(exprStr(sel.X), ".host") {
-					if id, ok := as.Lhs[0].(*ast.Ident); ok && id.Name != "_" {
-						obj := info.Defs[id]
-						if obj == nil {
-							obj = info.Uses[id]
+		pubAttr := func(t types.Type) string { // which attribute of the entity carries visibility
+			if pt, ok := t.(*types.Pointer); ok {
+				t = pt.Elem()
+			}
+			st, ok := t.Underlying().(*types.Struct)
+			if !ok {
+				return ""
+			}
+			for i := 0; i < st.NumFields(); i++ {
+				if st.Field(i).Name() == "IsPub" {
+					return "IsPub"
+				}
+			}
+			for i := 0; i < st.NumFields(); i++ {
+				if st.Field(i).Name() == "Modifier" {
+					return "Modifier"
+				}
+			}
+			return ""
+		}
+		// if statements testing a pub attribute: cond atom → (entity ident, failing side reports)
+		type pubTest struct {
+			obj  types.Object
+			okOn bool // value of the atom on the side that is allowed to continue silently
+			errs bool
+		}
+		tests := map[ast.Expr]pubTest{}
+		ast.Inspect(cur.Body, func(n ast.Node) bool {
+			ifs, ok := n.(*ast.IfStmt)
+			if !ok {
+				return true
+			}
+			cond := ast.Unparen(ifs.Cond)
+			neg := false
+			atom := cond
+			if u, ok := cond.(*ast.UnaryExpr); ok && u.Op == token.NOT {
+				neg = true
+				atom = ast.Unparen(u.X)
+			}
+			entObj, pubWhen, okAtom := actxPubAtom(p, info, cur.Body, atom, 0)
+			var ent *ast.Ident
+			if okAtom && entObj != nil {
+				ent = ast.NewIdent(entObj.Name())
+			}
+			if ent == nil {
+				return true
+			}
+			_ = neg
+			// the non-pub side: atom == !pubWhen. Which statement list runs then?
+			var failing ast.Node
+			atomValForBody := !neg // body runs when cond true ⇔ atom == !neg
+			if atomValForBody == !pubWhen {
+				failing = ifs.Body
+			} else if ifs.Else != nil {
+				failing = ifs.Else
+			}
+			tests[atom] = pubTest{obj: entObj, okOn: pubWhen, errs: failing != nil && reports(failing)}
+			return true
+		})
+
+		var handle func(st *actxImpState, n ast.Node)
+		handle = func(st *actxImpState, n ast.Node) {
+			if n == nil {
+				return
+			}
+			ast.Inspect(n, func(x ast.Node) bool {
+				ce, ok := x.(*ast.CallExpr)
+				if !ok {
+					return true
+				}
+				if isReport(ce) {
+					st.reported = true
+				}
+				f := CalleeOf(info, ce)
+				if f == nil || !isRecorder(ce) {
+					return true
+				}
+				// which entity feeds the recorded value?
+				var used []types.Object
+				for _, a := range ce.Args {
+					ast.Inspect(a, func(y ast.Node) bool {
+						if id, ok := y.(*ast.Ident); ok {
+							if _, isEnt := st.ent[info.Uses[id]]; isEnt {
+								used = append(used, info.Uses[id])
+							}
 						}
-						if obj != nil && actxCompound(obj.Type()) {
-							st.ent[obj] = "builtin"
+						return true
+					})
+				}
+				for _, e := range used {
+					kind := st.ent[e]
+					if pubAttr(e.Type()) == "" {
+						st.resolved = true
+						continue // templates / triggers carry no visibility attribute
+					}
+					st.resolved = true
+					if st.tested[e] {
+						okKinds[kind]++
+					} else {
+						bad = append(bad, finding{key: kind + " is recorded without a pub test", pos: ce.Pos(),
+							detail: fmt.Sprintf("%s(…) at %s records the %s `%s` taken from the imported module, but no test of its pub attribute with an error on the failing side precedes it on the path [%s]", f.Name(), c.Pos(ce.Pos()), kind, e.Name(), strings.Join(st.dec, ", "))})
+					}
+				}
+				return true
+			})
+		}
+		w := &Walker[*actxImpState]{Clone: actxImpClone}
+		w.IsPanic = func(s ast.Stmt) bool { return IsPanicCall(info, s) }
+		w.OnRange = func(st *actxImpState, r *ast.RangeStmt) (*actxImpState, bool) {
+			st.reported, st.resolved = false, false
+			return st, true
+		}
+		w.OnCond = func(st *actxImpState, cond ast.Expr, taken bool) (*actxImpState, bool) {
+			handle(st, cond)
+			if t, ok := tests[cond]; ok {
+				if taken == t.okOn || t.errs {
+					// either the entity is pub, or the failing side reports
+					st.tested[t.obj] = true
+				}
+			}
+			st.dec = append(st.dec, fmt.Sprintf("%s=%v", exprStr(cond), taken))
+			if len(st.dec) > 10 {
+				st.dec = st.dec[len(st.dec)-10:]
+			}
+			return st, true
+		}
+		w.OnCase = func(st *actxImpState, sw *ast.SwitchStmt, vals, others []ast.Expr) (*actxImpState, bool) {
+			return st, true
+		}
+		w.OnStmt = func(st *actxImpState, s ast.Stmt) (*actxImpState, bool) {
+			if as, ok := s.(*ast.AssignStmt); ok && len(as.Rhs) == 1 && len(as.Lhs) == 1 && actxIsSyntaxErrSink(info, as.Lhs[0]) {
+				st.reported = true
+			}
+			if as, ok := s.(*ast.AssignStmt); ok && len(as.Rhs) == 1 && isModuleVar(as.Rhs[0]) {
+				// entity lookup in the imported module
+				if id, ok := as.Lhs[0].(*ast.Ident); ok {
+					obj := info.Defs[id]
+					if obj == nil {
+						obj = info.Uses[id]
+					}
+					if obj != nil {
+						kind := actxEntityKind(obj.Type())
+						st.ent[obj] = kind
+						delete(st.tested, obj)
+					}
+				}
+			}
+			// entity supplied by the host (builtin module): x, …, … := self.host.<Get…>(…)
+			if as, ok := s.(*ast.AssignStmt); ok && len(as.Rhs) == 1 {
+				if ce, ok := as.Rhs[0].(*ast.CallExpr); ok {
+					if sel, ok := ce.Fun.(*ast.SelectorExpr); ok && types.IsInterface(info.TypeOf(sel.X)) && rootedAtRecv(sel.X) {
+						if id, ok := as.Lhs[0].(*ast.Ident); ok && id.Name != "_" {
+							obj := info.Defs[id]
+							if obj == nil {
+								obj = info.Uses[id]
+							}
+							if obj != nil && actxCompound(obj.Type()) {
+								st.ent[obj] = "builtin"
+							}
 						}
 					}
 				}
 			}
+			if _, isRet := s.(*ast.ReturnStmt); !isRet {
+				handle(st, s)
+			}
+			return st, true
 		}
-		if _, isRet := s.(*ast.ReturnStmt); !isRet {
-			handle(st, s)
+		w.OnLoopIter = func(loop ast.Stmt, before, after *actxImpState) {
+			rs, ok := loop.(*ast.RangeStmt)
+			if !ok || !strings.HasSuffix(exprStr(rs.X), "ToImport") {
+				return
+			}
+			if !after.resolved && !after.reported {
+				bad = append(bad, finding{key: "silent item", pos: rs.Pos(),
+					detail: fmt.Sprintf("an iteration over the requested items at %s neither records a resolved entity nor reports a diagnostic [%s]", c.Pos(rs.Pos()), strings.Join(after.dec, ", "))})
+			}
 		}
-		return st, true
-	}
-	w.OnLoopIter = func(loop ast.Stmt, before, after *actxImpState) {
-		rs, ok := loop.(*ast.RangeStmt)
-		if !ok || !strings.HasSuffix(exprStr(rs.X), "ToImport") {
-			return
-		}
-		if !after.resolved && !after.reported {
-			bad = append(bad, finding{key: "silent item", pos: rs.Pos(),
-				detail: fmt.Sprintf("an iteration over the requested items at %s neither records a resolved entity nor reports a diagnostic [%s]", c.Pos(rs.Pos()), strings.Join(after.dec, ", "))})
-		}
-	}
-	nret := 0
-	w.Exit = func(st *actxImpState, o outcome) {
-		if o.ret == nil {
-			return
-		}
-		for _, r := range o.ret.Results {
-			if ce, ok := ast.Unparen(r).(*ast.CallExpr); ok {
-				if f := CalleeOf(info, ce); f != nil {
-					for _, h := range helpers[1:] {
-						if h.Name.Name == f.Name() {
-							nret++
-							if !st.reported {
-								bad = append(bad, finding{key: "silent failure", pos: o.ret.Pos(),
-									detail: fmt.Sprintf("return through %s at %s (import abandoned) without a diagnostic on the path [%s]", f.Name(), c.Pos(o.ret.Pos()), strings.Join(st.dec, ", "))})
+		w.Exit = func(st *actxImpState, o outcome) {
+			if o.ret == nil {
+				return
+			}
+			for _, r := range o.ret.Results {
+				if ce, ok := ast.Unparen(r).(*ast.CallExpr); ok {
+					if f := CalleeOf(info, ce); f != nil {
+						for _, h := range abandon {
+							if h.Name.Name == f.Name() {
+								nret++
+								if !st.reported {
+									bad = append(bad, finding{key: "silent failure", pos: o.ret.Pos(),
+										detail: fmt.Sprintf("return through %s at %s (import abandoned) without a diagnostic on the path [%s]", f.Name(), c.Pos(o.ret.Pos()), strings.Join(st.dec, ", "))})
+								}
 							}
 						}
 					}
 				}
 			}
 		}
+		w.Run(cur.Body, &actxImpState{ent: map[types.Object]string{}, tested: map[types.Object]bool{}})
+		if w.Overflow || len(w.Unsupported) > 0 {
+			pathsIncomplete = true
+		}
 	}
-	w.Run(imp.Body, &actxImpState{ent: map[types.Object]string{}, tested: map[types.Object]bool{}})
-	if w.Overflow || len(w.Unsupported) > 0 {
+	for _, wfd := range walked {
+		walkOne(wfd)
+	}
+	if pathsIncomplete {
 		out = append(out, Obligation{Key: fname + "|<paths>", Pos: c.Pos(imp.Pos()), Status: Undecided, Detail: "path enumeration incomplete"})
 	}
 	// one obligation per entity kind that carries visibility
@@ -469,39 +543,71 @@ func actxImportAnalyzer(c *Ctx) []Obligation {
 		}
 		out = append(out, ob)
 	}
-	// cycle test reports
-	cyc := Obligation{Key: fname + "|cycle reported", Pos: c.Pos(imp.Pos()), Status: Undecided, Detail: "no `if …, isCyclic := <cycle test>; isCyclic` found", Nontrivial: true}
+	// cycle test reports: the import method calls the function that walks the import graph
+	// (it reads Module.ImportsModules, transitively); the branch taken when its boolean result
+	// is true must report
+	cyc := Obligation{Key: fname + "|cycle reported", Pos: c.Pos(imp.Pos()), Status: Undecided, Detail: "no call of the import-graph cycle test (a function reading Module.ImportsModules with a boolean result) found", Nontrivial: true}
+	var cycObj types.Object
+	var cycFn *types.Func
 	ast.Inspect(imp.Body, func(n ast.Node) bool {
-		ifs, ok := n.(*ast.IfStmt)
-		if !ok || ifs.Init == nil {
-			return true
-		}
-		as, ok := ifs.Init.(*ast.AssignStmt)
+		as, ok := n.(*ast.AssignStmt)
 		if !ok || len(as.Rhs) != 1 {
 			return true
 		}
-		ce, ok := as.Rhs[0].(*ast.CallExpr)
+		ce, ok := ast.Unparen(as.Rhs[0]).(*ast.CallExpr)
 		if !ok {
 			return true
 		}
 		f := CalleeOf(info, ce)
-		if f == nil || !strings.Contains(strings.ToLower(f.Name()), "cycl") {
+		if f == nil || f.Pkg() != p.Types || !actxReadsField(p, f, "ImportsModules", 3, map[*types.Func]bool{}) {
 			return true
 		}
-		cyc.Pos = c.Pos(ifs.Pos())
-		if id, ok := ast.Unparen(ifs.Cond).(*ast.Ident); ok && reports(ifs.Body) {
-			cyc.Status, cyc.Detail = Discharged, fmt.Sprintf("`if …, %s := %s(…); %s` reports an error", id.Name, f.Name(), id.Name)
-		} else {
-			cyc.Status, cyc.Detail = Violated, "the positive branch of the import-cycle test does not report an error"
+		for _, l := range as.Lhs {
+			id, ok := l.(*ast.Ident)
+			if !ok || id.Name == "_" {
+				continue
+			}
+			obj := info.Defs[id]
+			if obj == nil {
+				obj = info.Uses[id]
+			}
+			if obj != nil {
+				if bt, ok := obj.Type().Underlying().(*types.Basic); ok && bt.Kind() == types.Bool {
+					cycObj, cycFn = obj, f
+					cyc.Pos = c.Pos(as.Pos())
+				}
+			}
 		}
 		return true
 	})
+	if cycObj != nil {
+		cyc.Status, cyc.Detail = Violated, "the positive branch of the import-cycle test does not report an error"
+		ast.Inspect(imp.Body, func(n ast.Node) bool {
+			ifs, ok := n.(*ast.IfStmt)
+			if !ok {
+				return true
+			}
+			cond := ast.Unparen(ifs.Cond)
+			neg := false
+			if u, ok := cond.(*ast.UnaryExpr); ok && u.Op == token.NOT {
+				neg, cond = true, ast.Unparen(u.X)
+			}
+			id, ok := cond.(*ast.Ident)
+			if !ok || info.Uses[id] != cycObj {
+				return true
+			}
+			var side ast.Node = ifs.Body
+			if neg {
+				side = ifs.Else
+			}
+			if side != nil && reports(side) {
+				cyc.Status, cyc.Detail = Discharged, fmt.Sprintf("the branch taken when %s(…) finds a cycle reports an error", cycFn.Name())
+			}
+			return true
+		})
+	}
 	out = append(out, cyc)
 	return out
-}
-
-func syntaxErrAppend(as *ast.AssignStmt) bool {
-	return len(as.Lhs) == 1 && strings.HasSuffix(exprStr(as.Lhs[0]), "syntaxErrors")
 }
 
 // ---------------------------------------------------------------------------
@@ -511,8 +617,15 @@ func actxImportCompiler(c *Ctx) []Obligation {
 	info := p.TypesInfo
 	var out []Obligation
 	// anchor: the Compiler method taking the whole program (map[string]AnalyzedProgram)
+	// When the lowering is split over several such methods, the anchor is the one the others are
+	// called from (the helpers are followed from it).
 	var cp *ast.FuncDecl
 	var progParam types.Object
+	type cand struct {
+		fd   *ast.FuncDecl
+		prog types.Object
+	}
+	var cands []cand
 	for _, fd := range AllFuncDecls(p) {
 		if fd.Recv == nil || recvTypeName(fd.Recv.List[0].Type) != "Compiler" {
 			continue
@@ -520,9 +633,29 @@ func actxImportCompiler(c *Ctx) []Obligation {
 		for _, f := range fd.Type.Params.List {
 			if mt, ok := info.TypeOf(f.Type).Underlying().(*types.Map); ok {
 				if n, ok := mt.Elem().(*types.Named); ok && n.Obj().Name() == "AnalyzedProgram" && len(f.Names) > 0 {
-					cp, progParam = fd, info.Defs[f.Names[0]]
+					cands = append(cands, cand{fd, info.Defs[f.Names[0]]})
 				}
 			}
+		}
+	}
+	sort.Slice(cands, func(i, j int) bool { return FuncName(cands[i].fd) < FuncName(cands[j].fd) })
+	for _, k := range cands {
+		calledByOther := false
+		for _, o := range cands {
+			if o.fd == k.fd {
+				continue
+			}
+			ast.Inspect(o.fd.Body, func(n ast.Node) bool {
+				if ce, ok := n.(*ast.CallExpr); ok {
+					if g := CalleeOf(info, ce); g != nil && info.Defs[k.fd.Name] == types.Object(g) {
+						calledByOther = true
+					}
+				}
+				return true
+			})
+		}
+		if !calledByOther && cp == nil {
+			cp, progParam = k.fd, k.prog
 		}
 	}
 	if cp == nil {
@@ -530,6 +663,38 @@ func actxImportCompiler(c *Ctx) []Obligation {
 	}
 	fname := "homescript/compiler." + FuncName(cp)
 	// collections that receive one init function per module: C[k] = v inside `for k, _ := range program`, v built from InitFunctionIdent
+	// the name of the init function: the value of the exported constant InitFunctionIdent, written as the constant or as a literal
+	var initVal string
+	if k, ok := p.Types.Scope().Lookup("InitFunctionIdent").(*types.Const); ok {
+		initVal = k.Val().ExactString()
+	}
+	if initVal == "" {
+		return []Obligation{{Key: fname + "|per-module init table", Pos: c.Pos(cp.Pos()), Status: Undecided, Detail: "constant compiler.InitFunctionIdent not found"}}
+	}
+	mentionsInit := func(e ast.Expr) bool {
+		found := false
+		ast.Inspect(e, func(n ast.Node) bool {
+			if x, ok := n.(ast.Expr); ok {
+				if tv, ok := info.Types[x]; ok && tv.Value != nil && tv.Value.ExactString() == initVal {
+					found = true
+				}
+			}
+			return !found
+		})
+		return found
+	}
+	// parameters of the program-lowering method (the entry module's name is one of them)
+	curDecl := cp
+	isParam := func(id *ast.Ident) bool {
+		for _, f := range curDecl.Type.Params.List {
+			for _, nm := range f.Names {
+				if info.Defs[nm] != nil && info.Defs[nm] == info.Uses[id] {
+					return true
+				}
+			}
+		}
+		return false
+	}
 	perModule := map[types.Object]bool{}
 	ast.Inspect(cp.Body, func(n ast.Node) bool {
 		rs, ok := n.(*ast.RangeStmt)
@@ -553,7 +718,7 @@ func actxImportCompiler(c *Ctx) []Obligation {
 				continue
 			}
 			if lid, ok := as.Lhs[0].(*ast.Ident); ok {
-				if strings.Contains(exprStr(as.Rhs[0]), "InitFunctionIdent") {
+				if mentionsInit(as.Rhs[0]) {
 					if o := info.Defs[lid]; o != nil {
 						initVars[o] = true
 					}
@@ -573,174 +738,215 @@ func actxImportCompiler(c *Ctx) []Obligation {
 	if len(perModule) == 0 {
 		out = append(out, Obligation{Key: fname + "|per-module init table", Pos: c.Pos(cp.Pos()), Status: Undecided, Detail: "no collection receives one @init function per module of the program"})
 	}
-	// every Call_Imm emission in this function
+	// every Call_Imm emission in this function — and in the helpers it hands the per-module
+	// init table to (the table parameter of the helper then stands for the table)
 	ncall := 0
-	var stack []ast.Node
-	ast.Inspect(cp.Body, func(n ast.Node) bool {
-		if n == nil {
-			stack = stack[:len(stack)-1]
-			return true
-		}
-		stack = append(stack, n)
-		ce, ok := n.(*ast.CallExpr)
-		if !ok || len(ce.Args) < 2 {
-			return true
-		}
-		if k := ConstOf(info, ce.Args[0]); k == nil || k.Name() != "Opcode_Call_Imm" {
-			return true
-		}
-		ncall++
-		ob := Obligation{Key: fmt.Sprintf("%s|Call_Imm #%d targets every module's @init", fname, ncall), Pos: c.Pos(ce.Pos()), Nontrivial: true}
-		tid, _ := ast.Unparen(ce.Args[1]).(*ast.Ident)
-		var loop *ast.RangeStmt
-		for i := len(stack) - 1; i >= 0; i-- {
-			if rs, ok := stack[i].(*ast.RangeStmt); ok && tid != nil {
-				if vid, ok := rs.Value.(*ast.Ident); ok && info.Defs[vid] == info.Uses[tid] {
-					loop = rs
-					break
+	curDecl = cp
+	var scan func(body *ast.BlockStmt)
+	scan = func(body *ast.BlockStmt) {
+		var stack []ast.Node
+		ast.Inspect(body, func(n ast.Node) bool {
+			if n == nil {
+				stack = stack[:len(stack)-1]
+				return true
+			}
+			stack = append(stack, n)
+			ce, ok := n.(*ast.CallExpr)
+			if !ok || len(ce.Args) < 2 {
+				return true
+			}
+			if k := ConstOf(info, ce.Args[0]); k == nil || k.Name() != "Opcode_Call_Imm" {
+				return true
+			}
+			ncall++
+			ob := Obligation{Key: fmt.Sprintf("%s|Call_Imm #%d targets every module's @init", fname, ncall), Pos: c.Pos(ce.Pos()), Nontrivial: true}
+			tid, _ := ast.Unparen(ce.Args[1]).(*ast.Ident)
+			var loop *ast.RangeStmt
+			for i := len(stack) - 1; i >= 0; i-- {
+				if rs, ok := stack[i].(*ast.RangeStmt); ok && tid != nil {
+					if vid, ok := rs.Value.(*ast.Ident); ok && info.Defs[vid] == info.Uses[tid] {
+						loop = rs
+						break
+					}
 				}
 			}
-		}
-		// alternative idiom: target looked up by key, `t[, ok] := C[k]`, k ranging over all modules
-		lookupWhy := ""
-		if loop == nil && tid != nil {
-			var ix *ast.IndexExpr
-			ast.Inspect(cp.Body, func(x ast.Node) bool {
-				if as, ok := x.(*ast.AssignStmt); ok && len(as.Rhs) == 1 && len(as.Lhs) >= 1 {
-					if lid, ok := as.Lhs[0].(*ast.Ident); ok && (info.Defs[lid] == info.Uses[tid] || info.Uses[lid] == info.Uses[tid]) {
-						if e, ok := ast.Unparen(as.Rhs[0]).(*ast.IndexExpr); ok {
-							ix = e
+			// alternative idiom: target looked up by key, `t[, ok] := C[k]`, k ranging over all modules
+			lookupWhy := ""
+			if loop == nil && tid != nil {
+				var ix *ast.IndexExpr
+				ast.Inspect(body, func(x ast.Node) bool {
+					if as, ok := x.(*ast.AssignStmt); ok && len(as.Rhs) == 1 && len(as.Lhs) >= 1 {
+						if lid, ok := as.Lhs[0].(*ast.Ident); ok && (info.Defs[lid] == info.Uses[tid] || info.Uses[lid] == info.Uses[tid]) {
+							if e, ok := ast.Unparen(as.Rhs[0]).(*ast.IndexExpr); ok {
+								ix = e
+							}
 						}
 					}
-				}
-				return true
-			})
-			if ix != nil {
-				cid, _ := ast.Unparen(ix.X).(*ast.Ident)
-				if cid == nil || !perModule[info.Uses[cid]] {
-					lookupWhy = "the call target is looked up in " + exprStr(ix.X) + ", which does not hold one init function per module"
-				} else {
-					// which loop produces the key?
-					var keyLoop *ast.RangeStmt
-					for i := len(stack) - 1; i >= 0 && keyLoop == nil; i-- {
-						rs, ok := stack[i].(*ast.RangeStmt)
-						if !ok {
-							continue
-						}
-						ast.Inspect(ix.Index, func(y ast.Node) bool {
-							if id, ok := y.(*ast.Ident); ok {
-								for _, kv := range []ast.Expr{rs.Key, rs.Value} {
-									if kid, ok := kv.(*ast.Ident); ok && info.Defs[kid] != nil && info.Defs[kid] == info.Uses[id] {
-										keyLoop = rs
+					return true
+				})
+				if ix != nil {
+					cid, _ := ast.Unparen(ix.X).(*ast.Ident)
+					if cid == nil || !perModule[info.Uses[cid]] {
+						lookupWhy = "the call target is looked up in " + exprStr(ix.X) + ", which does not hold one init function per module"
+					} else {
+						// which loop produces the key?
+						var keyLoop *ast.RangeStmt
+						for i := len(stack) - 1; i >= 0 && keyLoop == nil; i-- {
+							rs, ok := stack[i].(*ast.RangeStmt)
+							if !ok {
+								continue
+							}
+							ast.Inspect(ix.Index, func(y ast.Node) bool {
+								if id, ok := y.(*ast.Ident); ok {
+									for _, kv := range []ast.Expr{rs.Key, rs.Value} {
+										if kid, ok := kv.(*ast.Ident); ok && info.Defs[kid] != nil && info.Defs[kid] == info.Uses[id] {
+											keyLoop = rs
+										}
 									}
 								}
-							}
-							return true
-						})
-					}
-					allModules := func(e ast.Expr) bool {
-						id, ok := ast.Unparen(e).(*ast.Ident)
-						if !ok {
-							return false
+								return true
+							})
 						}
-						o := info.Uses[id]
-						if o == progParam || perModule[o] {
-							return true
-						}
-						// a slice filled with every key of the program / init table (sorted-names idiom)
-						okAll := false
-						ast.Inspect(cp.Body, func(y ast.Node) bool {
-							rs, ok := y.(*ast.RangeStmt)
+						allModules := func(e ast.Expr) bool {
+							id, ok := ast.Unparen(e).(*ast.Ident)
 							if !ok {
+								return false
+							}
+							o := info.Uses[id]
+							if o == progParam || perModule[o] {
 								return true
 							}
-							rid, ok := ast.Unparen(rs.X).(*ast.Ident)
-							if !ok || !(info.Uses[rid] == progParam || perModule[info.Uses[rid]]) {
-								return true
-							}
-							kid, _ := rs.Key.(*ast.Ident)
-							for _, st := range rs.Body.List {
-								if as, ok := st.(*ast.AssignStmt); ok && len(as.Lhs) == 1 && len(as.Rhs) == 1 {
-									if lid, ok := as.Lhs[0].(*ast.Ident); ok && info.Uses[lid] == o && kid != nil {
-										if call, ok := as.Rhs[0].(*ast.CallExpr); ok && len(call.Args) == 2 {
-											if aid, ok := call.Args[1].(*ast.Ident); ok && info.Uses[aid] == info.Defs[kid] {
-												okAll = true
+							// a slice filled with every key of the program / init table (sorted-names idiom)
+							okAll := false
+							ast.Inspect(body, func(y ast.Node) bool {
+								rs, ok := y.(*ast.RangeStmt)
+								if !ok {
+									return true
+								}
+								rid, ok := ast.Unparen(rs.X).(*ast.Ident)
+								if !ok || !(info.Uses[rid] == progParam || perModule[info.Uses[rid]]) {
+									return true
+								}
+								kid, _ := rs.Key.(*ast.Ident)
+								for _, st := range rs.Body.List {
+									if as, ok := st.(*ast.AssignStmt); ok && len(as.Lhs) == 1 && len(as.Rhs) == 1 {
+										if lid, ok := as.Lhs[0].(*ast.Ident); ok && info.Uses[lid] == o && kid != nil {
+											if call, ok := as.Rhs[0].(*ast.CallExpr); ok && len(call.Args) == 2 {
+												if aid, ok := call.Args[1].(*ast.Ident); ok && info.Uses[aid] == info.Defs[kid] {
+													okAll = true
+												}
 											}
 										}
 									}
 								}
+								return true
+							})
+							return okAll
+						}
+						switch {
+						case keyLoop == nil:
+							lookupWhy = "the key " + exprStr(ix.Index) + " of the init-table lookup does not come from an enclosing range loop"
+						case !allModules(keyLoop.X):
+							lookupWhy = fmt.Sprintf("the @init calls are emitted for the keys produced by ranging over %s, not over all modules of the program: modules that are only reachable transitively (or not imported by the entry module at all) are never initialised", exprStr(keyLoop.X))
+						default:
+							loop = nil
+							ob.Status, ob.Detail = Discharged, fmt.Sprintf("targets are looked up in %s for every key of %s (all modules)", cid.Name, exprStr(keyLoop.X))
+							out = append(out, ob)
+							return true
+						}
+					}
+				}
+			}
+			switch {
+			case lookupWhy != "":
+				ob.Status, ob.Detail = Violated, lookupWhy
+			case tid == nil || loop == nil:
+				ob.Status, ob.Detail = Violated, "the call target "+exprStr(ce.Args[1])+" is neither the value variable of an enclosing range loop nor looked up in the per-module init table"
+			default:
+				cid, _ := ast.Unparen(loop.X).(*ast.Ident)
+				if cid == nil || !perModule[info.Uses[cid]] {
+					ob.Status = Violated
+					ob.Detail = fmt.Sprintf("the loop that emits the @init calls ranges over %s, which does not hold one init function per module of the program (modules reachable only transitively, or not imported by the entry module, are never initialised)", exprStr(loop.X))
+				} else {
+					// skips: only `if key == entry { continue }` before the emission
+					var why []string
+					kid, _ := loop.Key.(*ast.Ident)
+					ast.Inspect(loop.Body, func(x ast.Node) bool {
+						ifs, ok := x.(*ast.IfStmt)
+						if !ok || ifs.Pos() > ce.Pos() {
+							return true
+						}
+						hasJump := false
+						ast.Inspect(ifs.Body, func(y ast.Node) bool {
+							if _, ok := y.(*ast.BranchStmt); ok {
+								hasJump = true
 							}
 							return true
 						})
-						return okAll
-					}
-					switch {
-					case keyLoop == nil:
-						lookupWhy = "the key " + exprStr(ix.Index) + " of the init-table lookup does not come from an enclosing range loop"
-					case !allModules(keyLoop.X):
-						lookupWhy = fmt.Sprintf("the @init calls are emitted for the keys produced by ranging over %s, not over all modules of the program: modules that are only reachable transitively (or not imported by the entry module at all) are never initialised", exprStr(keyLoop.X))
-					default:
-						loop = nil
-						ob.Status, ob.Detail = Discharged, fmt.Sprintf("targets are looked up in %s for every key of %s (all modules)", cid.Name, exprStr(keyLoop.X))
-						out = append(out, ob)
-						return true
-					}
-				}
-			}
-		}
-		switch {
-		case lookupWhy != "":
-			ob.Status, ob.Detail = Violated, lookupWhy
-		case tid == nil || loop == nil:
-			ob.Status, ob.Detail = Violated, "the call target "+exprStr(ce.Args[1])+" is neither the value variable of an enclosing range loop nor looked up in the per-module init table"
-		default:
-			cid, _ := ast.Unparen(loop.X).(*ast.Ident)
-			if cid == nil || !perModule[info.Uses[cid]] {
-				ob.Status = Violated
-				ob.Detail = fmt.Sprintf("the loop that emits the @init calls ranges over %s, which does not hold one init function per module of the program (modules reachable only transitively, or not imported by the entry module, are never initialised)", exprStr(loop.X))
-			} else {
-				// skips: only `if key == entry { continue }` before the emission
-				var why []string
-				kid, _ := loop.Key.(*ast.Ident)
-				ast.Inspect(loop.Body, func(x ast.Node) bool {
-					ifs, ok := x.(*ast.IfStmt)
-					if !ok || ifs.Pos() > ce.Pos() {
-						return true
-					}
-					hasJump := false
-					ast.Inspect(ifs.Body, func(y ast.Node) bool {
-						if _, ok := y.(*ast.BranchStmt); ok {
-							hasJump = true
+						inBody := ce.Pos() >= ifs.Body.Pos() && ce.End() <= ifs.Body.End()
+						if !hasJump && !inBody {
+							return true
+						}
+						be, ok := ast.Unparen(ifs.Cond).(*ast.BinaryExpr)
+						okCond := false
+						if ok && (be.Op == token.EQL || be.Op == token.NEQ) && kid != nil {
+							x1, _ := ast.Unparen(be.X).(*ast.Ident)
+							y1, _ := ast.Unparen(be.Y).(*ast.Ident)
+							// the loop key compared with a parameter of the method (the entry module's name)
+							keyVsParam := x1 != nil && y1 != nil &&
+								((info.Uses[x1] == info.Defs[kid] && isParam(y1)) || (info.Uses[y1] == info.Defs[kid] && isParam(x1)))
+							switch {
+							case keyVsParam && be.Op == token.EQL && hasJump && !inBody:
+								okCond = true // `if key == entry { continue }` before the emission
+							case keyVsParam && be.Op == token.NEQ && inBody && !hasJump:
+								okCond = true // `if key != entry { emit }`
+							}
+						}
+						if !okCond {
+							why = append(why, "the emission is conditional on `"+exprStr(ifs.Cond)+"`")
 						}
 						return true
 					})
-					inBody := ce.Pos() >= ifs.Body.Pos() && ce.End() <= ifs.Body.End()
-					if !hasJump && !inBody {
-						return true
+					if len(why) > 0 {
+						ob.Status, ob.Detail = Violated, strings.Join(why, "; ")
+					} else {
+						ob.Status, ob.Detail = Discharged, fmt.Sprintf("emitted for every entry of %s (one @init per module of the program, filled unconditionally in the first pass) except the entry module itself", cid.Name)
 					}
-					be, ok := ast.Unparen(ifs.Cond).(*ast.BinaryExpr)
-					okCond := false
-					if ok && be.Op == token.EQL && hasJump && kid != nil {
-						x1, _ := ast.Unparen(be.X).(*ast.Ident)
-						y1, _ := ast.Unparen(be.Y).(*ast.Ident)
-						if x1 != nil && y1 != nil && (info.Uses[x1] == info.Defs[kid] || info.Uses[y1] == info.Defs[kid]) &&
-							(strings.Contains(strings.ToLower(x1.Name+y1.Name), "entry")) {
-							okCond = true
-						}
-					}
-					if !okCond {
-						why = append(why, "the emission is conditional on `"+exprStr(ifs.Cond)+"`")
-					}
-					return true
-				})
-				if len(why) > 0 {
-					ob.Status, ob.Detail = Violated, strings.Join(why, "; ")
-				} else {
-					ob.Status, ob.Detail = Discharged, fmt.Sprintf("emitted for every entry of %s (one @init per module of the program, filled unconditionally in the first pass) except the entry module itself", cid.Name)
 				}
 			}
+			out = append(out, ob)
+			return true
+		})
+	}
+	scan(cp.Body)
+	ast.Inspect(cp.Body, func(n ast.Node) bool {
+		ce, ok := n.(*ast.CallExpr)
+		if !ok {
+			return true
 		}
-		out = append(out, ob)
+		g := CalleeOf(info, ce)
+		gd := actxDeclOfFunc(p, g)
+		if gd == nil || gd == cp {
+			return true
+		}
+		handed := false
+		idx := 0
+		for _, fl := range gd.Type.Params.List {
+			for _, nm := range fl.Names {
+				if idx < len(ce.Args) {
+					if id, ok := ast.Unparen(ce.Args[idx]).(*ast.Ident); ok && perModule[info.Uses[id]] {
+						perModule[info.Defs[nm]] = true
+						handed = true
+					}
+				}
+				idx++
+			}
+		}
+		if handed {
+			curDecl = gd
+			scan(gd.Body)
+			curDecl = cp
+		}
 		return true
 	})
 	if ncall == 0 {
@@ -795,4 +1001,378 @@ func actxImportCompiler(c *Ctx) []Obligation {
 		out = append(out, Obligation{Key: "homescript/compiler|function lookup", Status: Undecided, Detail: "no Compiler method returns a .MangledName"})
 	}
 	return out
+}
+
+// ---------------------------------------------------------------------------
+// anchors by role (no unexported names)
+
+// actxErrReporters: the functions of the package that record an error-level
+// diagnostic: they build a diagnostic.Diagnostic whose Level is the exported
+// constant DiagnosticLevelError (directly, or through a helper that takes the
+// level as a parameter), or they are thin wrappers that call such a function
+// unconditionally.
+func actxErrReporters(p *packages.Package) map[*types.Func]bool {
+	info := p.TypesInfo
+	isDiag := func(t types.Type) *types.Struct {
+		n, ok := t.(*types.Named)
+		if !ok || n.Obj().Name() != "Diagnostic" || n.Obj().Pkg() == nil || !strings.HasSuffix(n.Obj().Pkg().Path(), "/diagnostic") {
+			return nil
+		}
+		st, _ := n.Underlying().(*types.Struct)
+		return st
+	}
+	isErrLevel := func(e ast.Expr) bool {
+		k := ConstOf(info, e)
+		return k != nil && k.Name() == "DiagnosticLevelError"
+	}
+	direct := map[*types.Func]bool{}
+	param := map[*types.Func]int{} // helper: level taken from parameter i
+	decls := map[*types.Func]*ast.FuncDecl{}
+	for _, fd := range AllFuncDecls(p) {
+		fn, _ := info.Defs[fd.Name].(*types.Func)
+		if fn == nil {
+			continue
+		}
+		decls[fn] = fd
+		sig := fn.Type().(*types.Signature)
+		// only unconditional (top-level, straight-line) statements of the body count:
+		// a function that may report somewhere inside is not a reporter
+		straight := actxAlwaysExecuted(fd.Body, false)
+		inspect := func(f func(ast.Node) bool) {
+			for _, st := range straight {
+				ast.Inspect(st, f)
+			}
+		}
+		inspect(func(n ast.Node) bool {
+			if _, isLit := n.(*ast.FuncLit); isLit {
+				return false
+			}
+			cl, ok := n.(*ast.CompositeLit)
+			if !ok {
+				return true
+			}
+			st := isDiag(info.TypeOf(cl))
+			if st == nil {
+				return true
+			}
+			var lvl ast.Expr
+			for i, el := range cl.Elts {
+				if kv, ok := el.(*ast.KeyValueExpr); ok {
+					if id, ok := kv.Key.(*ast.Ident); ok && id.Name == "Level" {
+						lvl = kv.Value
+					}
+				} else if i < st.NumFields() && st.Field(i).Name() == "Level" {
+					lvl = el
+				}
+			}
+			if lvl == nil {
+				return true
+			}
+			if isErrLevel(lvl) {
+				direct[fn] = true
+			} else if id, ok := ast.Unparen(lvl).(*ast.Ident); ok {
+				for i := 0; i < sig.Params().Len(); i++ {
+					if info.Uses[id] == sig.Params().At(i) {
+						param[fn] = i
+					}
+				}
+			}
+			return true
+		})
+	}
+	var ordered []*types.Func
+	for fn := range decls {
+		ordered = append(ordered, fn)
+	}
+	sort.Slice(ordered, func(i, j int) bool { return ordered[i].FullName() < ordered[j].FullName() })
+	for round := 0; round < 3; round++ {
+		for _, fn := range ordered {
+			fd := decls[fn]
+			if direct[fn] {
+				continue
+			}
+			// level handed to a parametric helper (unconditionally)
+			for _, st := range actxAlwaysExecuted(fd.Body, false) {
+				ast.Inspect(st, func(n ast.Node) bool {
+					if _, isLit := n.(*ast.FuncLit); isLit {
+						return false
+					}
+					ce, ok := n.(*ast.CallExpr)
+					if !ok {
+						return true
+					}
+					g := CalleeOf(info, ce)
+					if g == nil {
+						return true
+					}
+					if i, ok := param[g]; ok && i < len(ce.Args) && isErrLevel(ce.Args[i]) {
+						direct[fn] = true
+					}
+					return true
+				})
+			}
+			// thin wrapper: an unconditional top-level call of a reporter
+			for _, st := range actxAlwaysExecuted(fd.Body, false) {
+				if es, ok := st.(*ast.ExprStmt); ok {
+					if ce, ok := es.X.(*ast.CallExpr); ok {
+						if g := CalleeOf(info, ce); g != nil && g != fn && direct[g] {
+							direct[fn] = true
+						}
+					}
+				}
+			}
+		}
+	}
+	return direct
+}
+
+// actxIsSyntaxErrSink: e is a field (of the analysis context) holding the
+// collected syntax errors: a slice of errors.Error.
+func actxIsSyntaxErrSink(info *types.Info, e ast.Expr) bool {
+	sel, ok := ast.Unparen(e).(*ast.SelectorExpr)
+	if !ok {
+		return false
+	}
+	s := info.Selections[sel]
+	if s == nil || s.Kind() != types.FieldVal {
+		return false
+	}
+	sl, ok := s.Type().Underlying().(*types.Slice)
+	if !ok {
+		return false
+	}
+	n, ok := sl.Elem().(*types.Named)
+	return ok && n.Obj().Name() == "Error" && n.Obj().Pkg() != nil && strings.HasSuffix(n.Obj().Pkg().Path(), "/errors")
+}
+
+func actxDeclOfFunc(p *packages.Package, f *types.Func) *ast.FuncDecl {
+	if f == nil || f.Pkg() != p.Types {
+		return nil
+	}
+	for _, d := range AllFuncDecls(p) {
+		if p.TypesInfo.Defs[d.Name] == types.Object(f) {
+			return d
+		}
+	}
+	return nil
+}
+
+// actxPubParam: the index of the parameter of a scope-entry constructor that
+// becomes the exported IsPub attribute of the entry it builds (-1: none).
+func actxPubParam(p *packages.Package, f *types.Func) int {
+	fd := actxDeclOfFunc(p, f)
+	if fd == nil {
+		return -1
+	}
+	info := p.TypesInfo
+	sig := f.Type().(*types.Signature)
+	idx := -1
+	paramOf := func(e ast.Expr) int {
+		id, ok := ast.Unparen(e).(*ast.Ident)
+		if !ok {
+			return -1
+		}
+		for i := 0; i < sig.Params().Len(); i++ {
+			if info.Uses[id] == sig.Params().At(i) {
+				return i
+			}
+		}
+		return -1
+	}
+	ast.Inspect(fd.Body, func(n ast.Node) bool {
+		switch x := n.(type) {
+		case *ast.KeyValueExpr:
+			if id, ok := x.Key.(*ast.Ident); ok && id.Name == "IsPub" {
+				if i := paramOf(x.Value); i >= 0 {
+					idx = i
+				}
+			}
+		case *ast.AssignStmt:
+			if len(x.Lhs) == 1 && len(x.Rhs) == 1 {
+				if sel, ok := x.Lhs[0].(*ast.SelectorExpr); ok && sel.Sel.Name == "IsPub" {
+					if i := paramOf(x.Rhs[0]); i >= 0 {
+						idx = i
+					}
+				}
+			}
+		}
+		return true
+	})
+	return idx
+}
+
+// actxEntityKind classifies a value looked up in the imported module by its
+// type: the record with a Modifier is a function, the exported Variable record
+// a variable, any other record with an IsPub attribute a type; records
+// without a visibility attribute are templates / triggers.
+func actxEntityKind(t types.Type) string {
+	if pt, ok := t.(*types.Pointer); ok {
+		t = pt.Elem()
+	}
+	st, ok := t.Underlying().(*types.Struct)
+	if !ok {
+		return "entity"
+	}
+	hasPub, hasMod := false, false
+	for i := 0; i < st.NumFields(); i++ {
+		switch st.Field(i).Name() {
+		case "IsPub":
+			hasPub = true
+		case "Modifier":
+			hasMod = true
+		}
+	}
+	name := ""
+	if n, ok := t.(*types.Named); ok {
+		name = n.Obj().Name()
+	}
+	switch {
+	case hasPub && name == "Variable":
+		return "variable"
+	case hasPub:
+		return "type"
+	case hasMod:
+		return "function"
+	}
+	return "entity"
+}
+
+// actxReadsField: f (transitively through static callees of the package,
+// bounded) selects a struct field with the given exported name.
+func actxReadsField(p *packages.Package, f *types.Func, field string, depth int, seen map[*types.Func]bool) bool {
+	if f == nil || seen[f] {
+		return false
+	}
+	seen[f] = true
+	fd := actxDeclOfFunc(p, f)
+	if fd == nil {
+		return false
+	}
+	found := false
+	ast.Inspect(fd.Body, func(n ast.Node) bool {
+		switch x := n.(type) {
+		case *ast.SelectorExpr:
+			if s := p.TypesInfo.Selections[x]; s != nil && s.Kind() == types.FieldVal && x.Sel.Name == field {
+				found = true
+			}
+		case *ast.CallExpr:
+			if depth > 0 {
+				if g := CalleeOf(p.TypesInfo, x); g != nil && actxReadsField(p, g, field, depth-1, seen) {
+					found = true
+				}
+			}
+		}
+		return !found
+	})
+	return found
+}
+
+// actxPubAtom decides whether the condition atom e tests the visibility
+// attribute of an entity variable, whatever its form: `E.IsPub`,
+// `E.Modifier ==/!= <…PUB constant>`, a negation, a local that caches such a
+// test (`isPub := …`, also in an if-initialiser), or a call of a helper
+// predicate of the package whose single result is such a test of its
+// parameter / receiver. pubWhen: the atom is true exactly when E is pub.
+func actxPubAtom(p *packages.Package, info *types.Info, scope ast.Node, e ast.Expr, depth int) (ent types.Object, pubWhen bool, ok bool) {
+	if depth > 4 {
+		return nil, false, false
+	}
+	e = ast.Unparen(e)
+	objOf := func(x ast.Expr) types.Object {
+		if id, isId := ast.Unparen(x).(*ast.Ident); isId {
+			return info.Uses[id]
+		}
+		return nil
+	}
+	switch x := e.(type) {
+	case *ast.UnaryExpr:
+		if x.Op == token.NOT {
+			o, w, ok := actxPubAtom(p, info, scope, x.X, depth+1)
+			return o, !w, ok
+		}
+	case *ast.SelectorExpr:
+		if x.Sel.Name == "IsPub" {
+			if o := objOf(x.X); o != nil {
+				return o, true, true
+			}
+		}
+	case *ast.BinaryExpr:
+		if x.Op == token.EQL || x.Op == token.NEQ {
+			for _, pair := range [][2]ast.Expr{{x.X, x.Y}, {x.Y, x.X}} {
+				if sel, isSel := ast.Unparen(pair[0]).(*ast.SelectorExpr); isSel && sel.Sel.Name == "Modifier" {
+					if k := ConstOf(info, pair[1]); k != nil && strings.Contains(k.Name(), "PUB") {
+						if o := objOf(sel.X); o != nil {
+							return o, x.Op == token.EQL, true
+						}
+					}
+				}
+			}
+			// comparison of a cached flag with a boolean constant
+			for _, pair := range [][2]ast.Expr{{x.X, x.Y}, {x.Y, x.X}} {
+				if tv := info.Types[pair[1]]; tv.Value != nil && (tv.Value.String() == "true" || tv.Value.String() == "false") {
+					if o, w, ok := actxPubAtom(p, info, scope, pair[0], depth+1); ok {
+						same := (tv.Value.String() == "true") == (x.Op == token.EQL)
+						return o, w == same, true
+					}
+				}
+			}
+		}
+	case *ast.Ident:
+		obj := info.Uses[x]
+		if _, isVar := obj.(*types.Var); !isVar || scope == nil {
+			return nil, false, false
+		}
+		// a local assigned exactly once
+		var rhs ast.Expr
+		n := 0
+		ast.Inspect(scope, func(m ast.Node) bool {
+			if as, isAs := m.(*ast.AssignStmt); isAs && len(as.Lhs) == len(as.Rhs) {
+				for i, l := range as.Lhs {
+					if id, isId := l.(*ast.Ident); isId && (info.Defs[id] == obj || info.Uses[id] == obj) {
+						rhs = as.Rhs[i]
+						n++
+					}
+				}
+			}
+			return true
+		})
+		if n == 1 {
+			return actxPubAtom(p, info, scope, rhs, depth+1)
+		}
+	case *ast.CallExpr:
+		f := CalleeOf(info, x)
+		fd := actxDeclOfFunc(p, f)
+		if fd == nil || fd.Body == nil || len(fd.Body.List) != 1 {
+			return nil, false, false
+		}
+		ret, isRet := fd.Body.List[0].(*ast.ReturnStmt)
+		if !isRet || len(ret.Results) != 1 {
+			return nil, false, false
+		}
+		inner, w, ok := actxPubAtom(p, p.TypesInfo, nil, ret.Results[0], depth+1)
+		if !ok || inner == nil {
+			return nil, false, false
+		}
+		// which argument is the tested parameter / receiver?
+		if fd.Recv != nil && len(fd.Recv.List) > 0 && len(fd.Recv.List[0].Names) > 0 && p.TypesInfo.Defs[fd.Recv.List[0].Names[0]] == inner {
+			if sel, isSel := x.Fun.(*ast.SelectorExpr); isSel {
+				if o := objOf(sel.X); o != nil {
+					return o, w, true
+				}
+			}
+			return nil, false, false
+		}
+		idx := 0
+		for _, fl := range fd.Type.Params.List {
+			for _, nm := range fl.Names {
+				if p.TypesInfo.Defs[nm] == inner && idx < len(x.Args) {
+					if o := objOf(x.Args[idx]); o != nil {
+						return o, w, true
+					}
+				}
+				idx++
+			}
+		}
+	}
+	return nil, false, false
 }
